@@ -815,15 +815,21 @@ func (repo *Repository) MarkHeaderInvalid(ctx context.Context, hash bitcoin.Hash
 	repo.Lock()
 	defer repo.Unlock()
 
+	alreadyMarked := false
 	for _, invalidHash := range repo.invalidHashes {
 		if invalidHash.Equal(&hash) {
-			return nil // already marked
+			// A hash that reached the list through the config at start up can belong to a header
+			// that is still held, so that header still has to be removed below.
+			alreadyMarked = true
+			break
 		}
 	}
 
-	repo.invalidHashes = append(repo.invalidHashes, hash)
-	if err := saveInvalidHashes(ctx, repo.store, repo.invalidHashes); err != nil {
-		return errors.Wrap(err, "save invalid hashes")
+	if !alreadyMarked {
+		repo.invalidHashes = append(repo.invalidHashes, hash)
+		if err := saveInvalidHashes(ctx, repo.store, repo.invalidHashes); err != nil {
+			return errors.Wrap(err, "save invalid hashes")
+		}
 	}
 
 	// Check if hash was previously accepted
